@@ -13,6 +13,8 @@ S_WAIT_CER, C_WAIT_CEA, OPEN, CLOSING, CLOSED, DEAD = "S-Wait-CER", "C-Wait-CEA"
 EVENTS = ["CER", "CER-other-host", "CER-odd-flags", "CEA", "CEA-other-host", "DWR", "DWR-other-host", "DWA", "DWA-other-host",
           "DPR", "DPR-bad-cause", "DPA", "APP-req", "APP-req-misaddressed", "APP-ans", "local-stop", "local-stop+pending-inbound",
           "peer-disconnect", "idle", "CEA-duplicate", "DWA-echo", "DWA-echo-twice"]
+# the same valid base messages carrying the optional Origin-State-Id AVP their grammar allows: same cells as the plain ones
+EVENTS_OPT = ["CER+osi", "CEA+osi", "DWR+osi", "DWA+osi"]
 
 
 def slow_ticker(seconds=0.005):
@@ -54,6 +56,14 @@ def event_bytes(ev, ids):
         m = N.dwa(hbh=h, e2e=e)
     elif ev == "DWA-other-host":
         m = N.dwa(host=OTHER[0], realm=OTHER[1], hbh=h, e2e=e)
+    elif ev == "CER+osi":
+        m = N.cer(hbh=h, e2e=e, extra=[N.origin_state_id()])
+    elif ev == "CEA+osi":
+        m = N.cea(hbh=h, e2e=e, extra=[N.origin_state_id()])
+    elif ev == "DWR+osi":
+        m = N.dwr(hbh=h, e2e=e, extra=[N.origin_state_id()])
+    elif ev == "DWA+osi":
+        m = N.dwa(hbh=h, e2e=e, extra=[N.origin_state_id()])
     elif ev == "DPR":
         m = N.dpr(hbh=h, e2e=e)
     elif ev == "DPR-bad-cause":
@@ -80,6 +90,8 @@ def model_step(state, ev, role):
     """-> dict(next=..., emit=[names], hard=bool, not_open=bool)"""
     def r(nxt, emit=(), hard=True, not_open=False):
         return {"next": nxt, "emit": list(emit), "hard": hard, "not_open": not_open}
+    if ev.endswith("+osi"):
+        ev = ev[:-4]                              # an optional AVP of the grammar does not change the cell
     if state in (CLOSED, DEAD):
         return r(state, hard=False)
     if state == S_WAIT_CER:
@@ -114,6 +126,8 @@ def model_step(state, ev, role):
             return r(CLOSING, hard=False)
         if ev == "CER":
             return r(OPEN, ["CEA"], hard=False)
+        if ev in ("DWA", "DWA-echo", "DWA-echo-twice"):
+            return r(OPEN)                       # a valid watchdog answer from the configured peer is no reason to leave Open
         return r(OPEN, hard=False)
     if state == CLOSING:
         if ev == "DPA":
@@ -203,8 +217,8 @@ class Run:
         ndeliv = len(self.delivered)
         sc.read_emitted()
         data, (h, e) = event_bytes(ev, self.ids)
-        if ev == "CEA" and self.model == C_WAIT_CEA:
-            data = R.encode(N.cea(hbh=self.cer_ids[0], e2e=self.cer_ids[1]))
+        if ev in ("CEA", "CEA+osi") and self.model == C_WAIT_CEA:
+            data = R.encode(N.cea(hbh=self.cer_ids[0], e2e=self.cer_ids[1], extra=[N.origin_state_id()] if ev.endswith("+osi") else ()))
         # answers that echo the identifiers of requests the node itself has sent (a duplicated or retransmitted answer)
         if ev == "CEA-duplicate":
             ids_ = getattr(self, "cer_ids", None) or (h, e)
